@@ -372,6 +372,27 @@ static void caseC07(uint64_t idx, vh::Rng& g)
 		}
 		catch (std::exception& e) { R->violation("C07/" + nm + "/exception", e.what()); }
 	}
+	{	// upward with a real simulation: the symbolic encodings cannot compute an upward simulation themselves, so
+		// the caller has to bring one — here the explicit encoding's upward simulation of the same (sanitised,
+		// united) automaton, rebuilt from the dump with identical state numbers
+		std::string nm = "bdd-bu/up+sim(explicit-upward)"; R->phase(nm);
+		try
+		{
+			SharedDict sd; auto x = loadText<BDDBottomUpTreeAut>(sa, sd), y = loadText<BDDBottomUpTreeAut>(sb, sd);
+			AutBase::StateType n = AutBase::SanitizeAutsForInclusion(x, y);
+			auto u = BDDBottomUpTreeAut::UnionDisjointStates(x, y); std::string txt = u.DumpToString(serializer());
+			Aut e; { AutBase::StateDict d2; AutBase::StringToStateTranslWeak tr(d2, [](const std::string& q) { return static_cast<size_t>(std::stoul(q)); }); e.LoadFromString(parser(), txt, tr); }
+			if (n > 0 && !e.AreTransitionsEmpty())
+			{
+				SimParam sp; sp.SetRelation(SimParam::e_sim_relation::TA_UPWARD); sp.SetNumStates(n);
+				AutBase::StateDiscontBinaryRelation sim = e.ComputeSimulation(sp);
+				InclParam ip = mkParam(SELS[1]); ip.SetSimulation(&sim);
+				judge("C07", nm, BDDBottomUpTreeAut::CheckInclusion(x, y, ip), ref, expl);
+			}
+			else R->count("skipped-empty:" + nm);
+		}
+		catch (std::exception& e) { R->violation("C07/" + nm + "/exception", e.what()); }
+	}
 	if (maxTuples(b) <= 12)
 	{	// downward with simulation: the library prepares everything itself
 		std::string nm = "bdd-bu/down-rec+sim"; R->phase(nm);
